@@ -51,6 +51,21 @@ theorem pix_size_exact (o : Order) (round : Nat → Nat) (rows : List PixRow) (c
   rw [Nat.mul_comm (nPixels rows) (rows.length * 4)]
   omega
 
+/-- HEADLINE: for ANY selection of rows (`add_pixel_data(rows=…)`: fewer or more than nine), any pixel
+count and any chunk size ≥ 1, the pixel block is `12 + 4·(number of rows)·npix` bytes long — which is
+what `_PixWrap.size` declares -/
+theorem pix_block_size_rows (o : Order) (round : Nat → Nat) (rows : List PixRow) (chunk : Nat)
+    (hc : 1 ≤ chunk) :
+    (pixWrite o round rows chunk).length = 12 + 4 * rows.length * nPixels rows ∧
+    pixSize rows = 12 + 4 * rows.length * nPixels rows := by
+  have h := pix_size_exact o round rows chunk hc
+  have e : pixSize rows = 12 + 4 * rows.length * nPixels rows := by
+    unfold pixSize; rw [Nat.mul_comm rows.length 4]
+  exact ⟨h.trans e, e⟩
+
+/-- eleven rows, two pixels, chunk 1 -/
+example : (pixWrite .big id (List.replicate 11 ⟨0, 0, [7, 9]⟩) 1).length = 12 + 4 * 11 * 2 := by decide +kernel
+
 /-- with nine rows this is the documented `12 + 4·9·npix` -/
 theorem pix_size_nine_rows (o : Order) (round : Nat → Nat) (rows : List PixRow) (chunk : Nat)
     (hc : 1 ≤ chunk) (h9 : rows.length = 9) :
@@ -243,5 +258,22 @@ theorem file_accepted_by_strict_decoder (lt : Lt) (o : Order) (full fp fn title 
     simp only [List.map_map, finalDescs, descNames]
     rw [e, assignPos_map_name, List.map_map]
     rfl
+
+/-! ## The output target -/
+
+/-- what a path holds after `create` is exactly the file `create` writes, whatever the path held
+before: `create` opens the path with mode "wb" (`openWb`), so the result is a function of the builder
+state alone. (That the real `open(path, "wb")` truncates is validated by the output-target histories of
+the correspondence run, not proved.) -/
+theorem create_overwrites_exactly (previous previous' : Bytes) (order : List BlockName) (b : Builder)
+    (st : Stamps) (round : Nat → Nat) (chunk : Nat) :
+    pathAfterCreate previous order b st round chunk = create order b st round chunk ∧
+    pathAfterCreate previous order b st round chunk = pathAfterCreate previous' order b st round chunk := by
+  have h : ∀ p, pathAfterCreate p order b st round chunk = create order b st round chunk := by
+    intro p; unfold pathAfterCreate openWb; exact List.nil_append _
+  exact ⟨h previous, (h previous).trans (h previous').symm⟩
+
+example (b : Builder) (st : Stamps) : pathAfterCreate [170, 170, 170, 170, 170] Gen.SqwTables.blockOrder b st id 8192 =
+    create Gen.SqwTables.blockOrder b st id 8192 := (create_overwrites_exactly _ [] _ b st id 8192).1
 
 end ScnVerif.Props.C12
